@@ -73,6 +73,9 @@ package main
 // buffer that is offered to the transports, and the handler never reads again before everything read so far has been
 // offered to a transport still in play (offeredAt: bytes read when WrapConnection was last called); on a match the
 // registration is marked active and exactly the matched registration and wrapped connection go to the relay.
+// ... and it stops offering (and silently drains the connection instead) only when NO transport is left in play - not
+// after some number of reads or bytes: a flight may arrive in any number of segments
+//@   atcall io.Copy#2 before: assert @C04: len(possibleTransports) == 0
 //@   atcall WrapConnection before: assert @C04: arg1 == &received && arg2 == clientConn
 //@   atcall WrapConnection before: snap offeredAt := nread(clientConn)
 //@   atcall net.Conn).Read before: assert @C04: nread(clientConn) == old(nread(clientConn)) || (defined(offeredAt) && offeredAt == nread(clientConn))
